@@ -135,12 +135,13 @@ struct BaseNode {
   }
 };
 
-template <typename G>
+template <typename G, template <typename, bool> class Algo>
 struct MarkReachable {
   typedef typename G::GraphNode GraphNode;
   typedef typename G::edge_iterator edge_iterator;
 
   void operator()(G& g, const GraphNode& root) {
+    Exists<G, Algo> exists;
     std::deque<GraphNode> queue;
     queue.push_back(root);
 
@@ -151,6 +152,8 @@ struct MarkReachable {
         continue;
       g.getData(cur).reachable = true;
       for (auto ii : g.edges(cur)) {
+        if (!exists(g, ii))
+          continue; // not an edge of the residual graph
         GraphNode dst = g.getEdgeDst(ii);
         queue.push_back(dst);
       }
@@ -182,7 +185,7 @@ struct PrepareForVerifier {
     for (typename NodeList::iterator ii = g.A.begin(), ei = g.A.end(); ii != ei;
          ++ii) {
       if (g.getData(*ii).free)
-        MarkReachable<G>()(g, *ii);
+        MarkReachable<G, Algo>()(g, *ii);
     }
 
     for (typename Matching::iterator ii = matching->begin(),
